@@ -132,6 +132,7 @@ def run_layout(res, L, tier, scratch, judge=conv.judge_locus, prop="C01"):
     g = L.graph("complete")
     gpath = os.path.join(scratch, "g.gfa")
     fw.write_text(gpath, conv.gfa_text(g, L))
+    conv.prime_with_sibling(scratch, L)
     maxlen = maxlen_for(L, tier)
     recs = [r for r, steps in conv.records_for(g, L, maxlen)]
     res.count("records_u2s", len(recs))
@@ -187,6 +188,7 @@ def replay(case, scratch, judge=conv.judge_locus, prop="C01"):
     g = L.graph("complete")
     gpath = os.path.join(scratch, "g.gfa")
     fw.write_text(gpath, conv.gfa_text(g, L))
+    conv.prime_with_sibling(scratch, L)  # the run had converted on the sibling graph before, in the same process
     recs = [rgfa.Rec.parse(l) for l in case["records"]]
     text = "".join(r.line() + "\n" for r in recs)
     if case["direction"] == "cli":
